@@ -5,6 +5,14 @@
 // the first writer inside Write until a second goroutine enters Write as well
 // (the lost-update schedule TLC exhibits for the unserialised variant) or a
 // timeout shows that nobody else can get in.
+//
+// Everything else of C13 is replayed by package c12 (one engine for both
+// properties): the delivery histories (incl. the command that never reads its
+// input, whose close() must still report its exit status, and the system()
+// child that shows a file the program is writing), and the failure family
+// (a failure at every byte offset of standard output, in default, CSV and
+// TSV output mode, with a plain writer and *bufio.Writers of 3, 16 and 4096
+// bytes as Config.Output, plus the never-failing control).
 package c13
 
 import (
